@@ -24,7 +24,8 @@ VARIABLES node,        \* inode -> [k \in {"free","file","dir"}, par, nm]
           kw,          \* kernel watches: sequence indexed by wd of inode (0 = removed)
           kq,          \* kernel event queue of the inotify instance
           ck,          \* next rename cookie
-          hotD, hotN   \* pacing: directories / (parent, name) pairs shaped since the last drain
+          hotD, hotN   \* pacing: directories shaped since the last drain / <<parent, name, owner>>: names made hot by directory
+                       \* `owner` (0: by a removal) -- only the owner itself may be moved (back) onto such a name
 fsvars == <<node, kw, kq, ck, hotD, hotN>>
 
 \* ---------------------------------------------------------------------------- derived structure
@@ -74,9 +75,10 @@ DropWatches(S) == [w \in 1..Len(kw) |-> IF kw[w] \in S THEN 0 ELSE kw[w]]
 \* ---------------------------------------------------------------------------- pacing (C01)
 \* i itself or the directory it lives in is below a hot directory
 BelowHot(p) == \E h \in hotD : node[h].k # "free" /\ Anc(h, p)
-PacingOK_Create(p, n) == ~BelowHot(p) /\ <<p, n>> \notin hotN
+HotName(p, n) == {h \in hotN : h[1] = p /\ h[2] = n}
+PacingOK_Create(p, n) == ~BelowHot(p) /\ HotName(p, n) = {}
 PacingOK_Touch(i) == ~BelowHot(node[i].par)                     \* operate on entry i (not on a hot directory's contents)
-ShapeDir(i, names) == hotD' = hotD \cup {i} /\ hotN' = hotN \cup names
+ShapeDir(i, names) == hotD' = hotD \cup {i} /\ hotN' = hotN \cup {<<x[1], x[2], i>> : x \in names}
 NoShape == UNCHANGED <<hotD, hotN>>
 
 \* ---------------------------------------------------------------------------- system calls (tree + queue)
@@ -101,7 +103,7 @@ Unlink(i) == /\ node[i].k = "file" /\ InR(i) /\ PacingOK_Touch(i)
 Rmdir(i) == /\ IsDir(i) /\ InR(i) /\ i # RR /\ Children(i) = {} /\ PacingOK_Touch(i)
             /\ node' = [node EXCEPT ![i] = Free]
             /\ kq' = Enq(kq, RmdirEvents(i)) /\ kw' = DropWatches({i})
-            /\ hotD' = hotD /\ hotN' = hotN \cup {<<node[i].par, node[i].nm>>}
+            /\ hotD' = hotD /\ hotN' = hotN \cup {<<node[i].par, node[i].nm, 0>>}
             /\ UNCHANGED ck
 \* rename / replace / move out / move in: one re-parenting
 Rename(i, p2, n2) ==
@@ -112,7 +114,8 @@ Rename(i, p2, n2) ==
     /\ LET vs == ChildNamed(p2, n2)
            v == IF vs = {} THEN 0 ELSE CHOOSE x \in vs : TRUE IN
        /\ (v # 0 => (node[v].k = node[i].k /\ (IsDir(v) => Children(v) = {})))      \* replace: same kind, empty dir
-       /\ PacingOK_Touch(i) /\ ~BelowHot(p2) /\ (<<p2, n2>> \notin hotN \/ i \in hotD)   \* no entry is moved onto a hot name
+       /\ PacingOK_Touch(i) /\ ~BelowHot(p2)
+       /\ \A h \in HotName(p2, n2) : h[3] = i       \* no entry is moved onto a hot name, except the directory that made it hot
        /\ (v # 0 => PacingOK_Touch(v))
        /\ node' = [j \in Ino |-> IF j = i THEN [node[i] EXCEPT !.par = p2, !.nm = n2]
                                  ELSE IF j = v THEN Free ELSE node[j]]
@@ -129,7 +132,7 @@ Makedirs(p, n1, n2) ==
            b == CHOOSE i \in FreeIno \ {a} : \A j \in FreeIno \ {a} : i <= j IN
        /\ node' = [node EXCEPT ![a] = [k |-> "dir", par |-> p, nm |-> n1], ![b] = [k |-> "dir", par |-> a, nm |-> n2]]
        /\ kq' = Enq(kq, MkdirEvents(p, n1))        \* the inner mkdir is seen only if the new directory is watched by then
-       /\ hotD' = hotD \cup {a, b} /\ hotN' = hotN \cup {<<p, n1>>, <<a, n2>>}
+       /\ hotD' = hotD \cup {a, b} /\ hotN' = hotN \cup {<<p, n1, a>>, <<a, n2, b>>}
     /\ UNCHANGED <<kw, ck>>
 \* rm -r i : bottom-up, back to back
 RECURSIVE RmOrder(_), RmEvents(_)
@@ -145,7 +148,7 @@ Rmtree(i) ==
     /\ node' = [j \in Ino |-> IF j \in Subtree(i) THEN Free ELSE node[j]]
     /\ kq' = Enq(kq, RmEvents(RmOrder(Subtree(i))))
     /\ kw' = DropWatches(Subtree(i))
-    /\ hotD' = hotD /\ hotN' = hotN \cup {<<node[i].par, node[i].nm>>}
+    /\ hotD' = hotD /\ hotN' = hotN \cup {<<node[i].par, node[i].nm, 0>>}
     /\ UNCHANGED ck
 
 \* the driver lets the stream drain: pacing state is reset
